@@ -26,8 +26,9 @@ def hist_stage(prop, config="rel", extra_args=(), shards=1):
 SPECS = {}
 
 
-def simple(prop, level, rule, assumptions, stages):
+def simple(prop, level, rule, assumptions, stages, **kw):
     SPECS[prop] = {"level": level, "rule": rule, "assumptions": COMMON_ASSUME + assumptions, "stages": stages}
+    SPECS[prop].update(kw)
 
 
 simple("C04", "exploration",
@@ -91,3 +92,31 @@ simple("C12", "model_checking",
         "byte-preserving decode (no U+FFFD substitution), as the round-trip clause of the property requires"],
        lambda tier: [{"name": "params-enum", "driver": "drv_params", "config": "rel", "sources": ["harness/drv_params.cpp"],
                       "args": [], "kinds": ["params"]}])
+
+REF_SRC = ["ref/refurl.cpp", "ref/refidna.cpp"]
+REF_FLAGS = ["-DVH_WITH_REF=1"]
+
+simple("C01", "model_checking",
+       "E-tok (26 tokens, k<=4 quick / 5 thorough) x (no base + 12 bases covering every relative-state branch), E-prod slot "
+       "menus with hosts/paths of 15,16,17,31,32,33,48 bytes, E-byte (every ASCII byte and UTF-8 lead/continuation byte at "
+       "scheme/userinfo/host/port/path/query/fragment positions, offsets 0..40 around SIMD block edges, fast-path eligible "
+       "and ineligible templates), both URL types; states = distinct results, transitions = (input, base) evaluations, each "
+       "evaluation is one model trace replayed on the implementation",
+       ["oracle: refurl (WHATWG URL Standard transcription, validated on urltestdata.json 891/891 and setters_tests.json "
+        "278/278 before every run) with refidna (UTS46, Unicode 17 data) for domains",
+        "inputs are valid UTF-8 only"],
+       lambda tier: [{"name": "parse-enum-ref", "driver": "drv_parse_ref", "config": "rel", "sources": PARSE_SRC + REF_SRC,
+                      "flags": REF_FLAGS, "args": ["--prop", "C01"], "kinds": ["parse"]}],
+       needs_models=True)
+
+simple("C03", "model_checking",
+       "hist-bfs: 28 initial URLs (+ every relative reference of a 14-element menu resolved against each) x (setter, value) "
+       "menu (49 ops quick / 119 thorough incl. delimiters, tabs/newlines, ports, IPv4/IPv6, drive letters, '//' paths, scheme "
+       "class changes); ada::url, ada::url_aggregator and the refurl record advance in lockstep; depth 3 (quick) / fixpoint or "
+       "deadline (thorough); exact-state dedup on the full observation tuple; in every new state 14 relative references are "
+       "resolved by ada and by the model; states/transitions as counted; every transition is a model step replayed on the code",
+       ["oracle: refurl API setters (validated on setters_tests.json 278/278) + refidna; failure-atomicity from the statement"],
+       lambda tier: [{"name": "hist-bfs-ref", "driver": "drv_hist_ref", "config": "rel", "sources": HIST_SRC + REF_SRC, "flags": REF_FLAGS,
+                      "args": ["--prop", "C03", "--threads", str(vlib.NPROC)] + (["--deadline", "2400"] if tier == "thorough" else []),
+                      "kinds": ["hist"], "shards": 1}],
+       needs_models=True)
